@@ -196,12 +196,14 @@ pub fn cli(out: &mut Out, dir: &str, file: &GenFile, tt: &TT, rng: &mut Rng, wha
         }
         "count-stdin" => {
             // the model piped to stdin instead of `-i FILE`
-            let req = "CLI count, model on stdin".to_string();
+            // the last line with a line break, with a CRLF, or ending at end of input
+            let ending = ["\n", "", "\r\n"][rng.below(3)];
+            let req = format!("CLI count, model on stdin, last line ends with {:?}", ending);
             out.eval(Some(format!("{text}|{req}")));
             let mut cmd = Command::new(bin_path());
             if matches!(file.fmt, Fmt::D4) { cmd.arg("-t").arg(n.to_string()); }
             cmd.arg("count").stdin(Stdio::piped()).stdout(Stdio::piped()).stderr(Stdio::null());
-            let got = cmd.spawn().ok().and_then(|mut c| { use std::io::Write; c.stdin.take().unwrap().write_all(format!("{}\n", text).as_bytes()).ok()?; let o = c.wait_with_output().ok()?; if o.status.success() { Some(String::from_utf8_lossy(&o.stdout).to_string()) } else { None } });
+            let got = cmd.spawn().ok().and_then(|mut c| { use std::io::Write; c.stdin.take().unwrap().write_all(format!("{}{}", text, ending).as_bytes()).ok()?; let o = c.wait_with_output().ok()?; if o.status.success() { Some(String::from_utf8_lossy(&o.stdout).to_string()) } else { None } });
             match got { None => out.fail("cli-count-stdin", &text, &req, "non-zero exit", "a count"), Some(o) => { let want = tt.count().to_string(); if o.trim() != want { out.fail("cli-count-stdin", &text, &req, o.trim(), &want); } } }
         }
         "save" => {
@@ -235,7 +237,7 @@ pub fn cli(out: &mut Out, dir: &str, file: &GenFile, tt: &TT, rng: &mut Rng, wha
                 lines.push(match rng.below(9) {
                     0 => "count".to_string(), 1 => format!("count a {}", s(&a).join(" ")), 2 => format!("sat a {}", s(&a).join(" ")),
                     3 => "core".to_string(), 4 => format!("enum l {}", 1 + rng.below(3)), 5 => format!("random l 2 s {}", rng.below(50)),
-                    6 => "frobnicate 1".to_string(), 7 => "count a".to_string(), _ => format!("count v {}", s(&a).join(" ")) });
+                    6 => "frobnicate 1".to_string(), 7 => ["count a", "", " ", "\t"][rng.below(4)].to_string(), _ => format!("count v {}", s(&a).join(" ")) });
             }
             let req = format!("CLI {what}: {}", lines.join(" | "));
             out.eval(Some(format!("{text}|{req}")));
